@@ -1506,6 +1506,12 @@ def load_corpus():
 
 def run(ctx, res):
     thorough = ctx.tier == "thorough"
+    res.assumptions += [
+        "MiniC semantics (Model/MiniC.lean) = ISO C17 with gcc's implementation-defined choices; cross-checked against gcc -fsanitize=undefined on every run, not proved",
+        "infer_sound: every INT bound |v| < 2^62-1 (beyond that the C++ bound arithmetic is signed overflow); Known values are read as points whatever their bound",
+        "validator_sound is relative to the totalised semantics: a local read before its first assignment reads 0 (the printer never emits such a program)",
+        "token <-> occurrence mapping, dump reader, violation search and classifiers are python (trusted, spelling and position checked per token)",
+    ]
     if THEOREMS:
         core.prove(ctx, res, MODULES, THEOREMS)
     drv = ctx.driver("drv_c01")
